@@ -19,6 +19,18 @@ let rec int_of_pos = function XH -> 1 | XO p -> 2 * int_of_pos p | XI p -> 2 * i
 let int_of_z = function Z0 -> 0 | Zpos p -> int_of_pos p | Zneg p -> - (int_of_pos p)
 let n_of_int n = if n = 0 then N0 else Npos (pos_of_int n)
 let int_of_n = function N0 -> 0 | Npos p -> int_of_pos p
+(* unsigned 64-bit decimal -> N (OCaml ints have 63 bits) *)
+let n_of_u64 (s : string) : n =
+  let v = Int64.of_string ("0u" ^ s) in
+  let rec go (v : int64) : positive option =
+    if Int64.equal v 0L then None
+    else
+      let lo = Int64.logand v 1L and hi = Int64.shift_right_logical v 1 in
+      match go hi with
+      | None -> Some XH                                  (* v = 1 *)
+      | Some p -> Some (if Int64.equal lo 1L then XI p else XO p) in
+  match go v with None -> N0 | Some p -> Npos p
+let rec pos_bits = function XH -> 1 | XO p | XI p -> 1 + pos_bits p
 let q_of_frac a b = { qnum = z_of_int a; qden = pos_of_int b }
 
 let fb (b : int) = xf_of_bits (z_of_int b)
@@ -349,7 +361,7 @@ let pairs_of s = List.map (fun p -> match String.split_on_char ':' p with
     | [a; b] -> (int_of_string a, int_of_string b) | _ -> failwith "bad pair") (split ',' s)
 
 (* one matrix type: [conv] = `x as f32`; [range] = apply the [-1,1] property check *)
-let corr_stage tag conv m m2 get geto ~range =
+let corr_stage ?periodic tag conv m m2 get geto ~range =
   let delays = ints (Option.value (get "delays") ~default:"") in
   let pairs = pairs_of (Option.value (get "dij") ~default:"") in
   let obs name = split ',' (Option.value (geto (tag ^ name)) ~default:"") in
@@ -370,6 +382,13 @@ let corr_stage tag conv m m2 get geto ~range =
     else if not (check_corr_sym (fb (canon (int_of_string cr))) (fb (canon (int_of_string crr))))
     then pf (tag ^ "-cross_correlation-not-symmetric")
   end;
+  (match periodic with
+   | Some cmn ->
+       let o = obs "auto" in
+       if List.length o = List.length delays then
+         List.iter2 (fun d s -> if s <> "P" && not (check_auto_periodic slack_corr cmn (nat_of_int d) (fb (int_of_string s)))
+                      then pf (Printf.sprintf "%s-auto_correlation-of-periodic-matrix-not-1 delay=%d" tag d)) delays o
+   | None -> ());
   if range then begin
     List.iter (fun s -> if s = "P" then pf (tag ^ "-auto_correlation-panics")
                 else if not (check_corr_range slack_corr (fb (int_of_string s)))
@@ -395,7 +414,10 @@ let c09_stat al k get geto =
    | Some "P", _ -> pf "unexpected-panic entropy"
    | Some s, m ->
        let o = frow (ints s) in
-       List.iter (fun e -> if not (check_entropy_range k num den slack_corr e) then pf "entropy-outside-[0,log2 K]") o;
+       if not (check_entropy k num den slack_corr cm o) then pf "entropy-outside-[0,log2 K]";
+       if List.length o = List.length cm then
+         List.iter2 (fun row e -> if not (check_entropy_exact slack_corr row e)
+                      then pf "entropy-of-one-symbol-not-0-or-of-two-equal-counts-not-1") cm o;
        (match m with
         | Ok e -> if not (row_same e o) then df (Printf.sprintf "ent model=%s" (show_frow e))
         | _ -> df "ent model-panics")
@@ -420,7 +442,7 @@ let c09_stat al k get geto =
             if ms <> s then df (Printf.sprintf "cons model=%s" ms)
         | _ -> df "cons model-panics")
    | None, _ -> df "missing-observation cons");
-  corr_stage "c" conv_N cm cm2 get geto ~range:true;
+  corr_stage ~periodic:cm "c" conv_N cm cm2 get geto ~range:true;
   (* frequencies *)
   let pseudo = pseudo_of k (Option.get (get "ps")) in
   if geto "fq" = Some "P" then (pf "unexpected-panic to_freq"; raise Stop);
@@ -452,6 +474,11 @@ let c09_stat al k get geto =
   let sm = get_fm geto "sm" and sm2 = get_fm geto "sm2" in
   same_fm "sm" (to_scoring ops l2 l10 ln wm) sm;
   same_fm "sm2" (to_scoring ops l2 l10 ln wm2) sm2;
+  (match geto "sic" with
+   | Some "P" -> pf "unexpected-panic ScoringMatrix::information_content"
+   | Some v -> if not (check_sic (q_of_frac 1 1000) (q_of_frac 1 100000) wbg fq sm (fb (int_of_string v)))
+       then pf "information-content-not-sum-of-frequency*score"
+   | None -> ());
   scalar_cmp "sic" (Ok (scoring_information_content ops p2 wbg sm)) (Option.value (geto "sic") ~default:"P");
   corr_stage "s" conv_id sm sm2 get geto ~range:false;
   (match geto "w2" with
@@ -489,6 +516,10 @@ let c09_stat al k get geto =
    | Some d, Some d2 -> corr_stage "d" conv_N (nmat (imatrix d)) (nmat (imatrix d2)) get geto ~range:true
    | _, _ -> df "missing-observation dd");
   if !oracle_miss then df "oracle-miss"
+
+(* does the usize sum of the counts overflow?  (exact, on N: more than 64 bits) *)
+let total_overflows (c : n list) =
+  match List.fold_left N.add N0 c with N0 -> false | Npos p -> pos_bits p > 64
 
 let bg_result geto =
   match geto "r" with
@@ -537,10 +568,15 @@ let c09_case line_in obs_s =
          | _ -> ());
         cmp_bg_result (bg_new ops v) obs
     | "bgcnt" ->
-        let c = List.map n_of_int (ints (Option.get (get "c"))) in
+        (* counts are u64: parse through Int64 (OCaml's int has 63 bits) *)
+        let c = List.map n_of_u64 (split ',' (Option.get (get "c"))) in
         let obs = bg_result geto in
-        check_bg_obs "from_counts" c obs;
-        cmp_bg_result (bg_from_counts ops c) obs
+        let wrap = (geto "prof" = Some "rel") in
+        if not (total_overflows c) then check_bg_obs "from_counts" c obs;
+        (match bg_from_counts_ovf ops wrap c, obs with
+         | Panic _, `P -> ()
+         | Panic _, _ -> df "from_counts: model panics (usize overflow), implementation does not"
+         | m, _ -> cmp_bg_result m obs)
     | "bgseq" ->
         let seqs = parse_seqs al (Option.get (get "seqs")) in
         let unk = Option.get (get "unk") = "1" in
